@@ -131,18 +131,31 @@ func runC10(p *core.Program, r *core.Report) {
 				S[k] = true
 			}
 		}
-		var amp []*ast.CallExpr
-		var closure []*ast.CallExpr
-		for _, c := range core.CallsTo(info, ptr, true, "fmt.Sprintf") {
-			if s, ok := core.ConstString(info, c.Args[0]); ok {
-				if strings.Contains(s, "&(") || strings.HasPrefix(strings.TrimSpace(s), "&") {
-					amp = append(amp, c)
-				}
-				if strings.Contains(s, "func(") {
-					closure = append(closure, c)
-				}
-			}
+		// string-building results of the pointer arm: fmt.Sprintf(const, ops...) or a concatenation
+		type built struct {
+			at   ast.Expr
+			text string
+			ops  []ast.Expr
 		}
+		var amp, closure []built
+		ast.Inspect(ptr, func(n ast.Node) bool {
+			ret, ok := n.(*ast.ReturnStmt)
+			if !ok || len(ret.Results) != 1 {
+				return true
+			}
+			text, ops, ok := stringBuild(info, ret.Results[0])
+			if !ok {
+				return true
+			}
+			b := built{ret.Results[0], text, ops}
+			if strings.Contains(text, "&(") || strings.HasPrefix(strings.TrimSpace(text), "&") {
+				amp = append(amp, b)
+			}
+			if strings.Contains(text, "func(") {
+				closure = append(closure, b)
+			}
+			return true
+		})
 		allKinds := []string{}
 		for k := reflect.Invalid; k <= reflect.UnsafePointer; k++ {
 			allKinds = append(allKinds, k.String())
@@ -150,7 +163,7 @@ func runC10(p *core.Program, r *core.Report) {
 		P := map[string]bool{}
 		how := ""
 		for _, c := range amp {
-			ks, h := ampKinds(p, f, ptr, c, allKinds)
+			ks, h := ampKinds(p, f, ptr, c.at, allKinds)
 			how = h
 			for _, k := range ks {
 				P[k] = true
@@ -166,7 +179,7 @@ func runC10(p *core.Program, r *core.Report) {
 				}
 			}
 			sort.Strings(clash)
-			r.Check(len(clash) == 0, "R2", f, "address-of form is used only for composite-literal kinds", amp[0].Pos(),
+			r.Check(len(clash) == 0, "R2", f, "address-of form is used only for composite-literal kinds", amp[0].at.Pos(),
 				"kinds reaching `&(lit)` ("+how+") are disjoint from the scalar arms",
 				"a pointer to "+strings.Join(clash, "/")+" is rendered as `&(<non-composite literal>)`, which does not compile (e.g. *string -> &(\"x\")); "+how)
 		}
@@ -178,7 +191,7 @@ func runC10(p *core.Program, r *core.Report) {
 		for _, c := range closure {
 			good := true
 			var badOp string
-			for _, a := range c.Args[1:] {
+			for _, a := range c.ops {
 				t := info.TypeOf(a)
 				if t != nil && core.NamedTypeName(t) == "reflect.Kind" {
 					good, badOp = false, core.ExprStr(a)
@@ -195,7 +208,7 @@ func runC10(p *core.Program, r *core.Report) {
 				}
 				good, badOp = false, core.ExprStr(a)
 			}
-			r.Check(good, "R3", f, "type names in the closure form come from the type-literal printer", c.Pos(), "operands are ReflectTypeLit(...) and the element literal",
+			r.Check(good, "R3", f, "type names in the closure form come from the type-literal printer", c.at.Pos(), "operands are ReflectTypeLit(...) and the element literal",
 				"operand `"+badOp+"` of the closure form is not rendered by the type-literal printer (a reflect.Kind prints the underlying kind: *MyInt becomes func(v int) *int, the wrong type, and no import is registered)")
 		}
 	}
@@ -387,7 +400,7 @@ func c10R7(p *core.Program, r *core.Report, f *core.Func) {
 
 // ampKinds determines the element kinds for which the address-of format call
 // is reached inside the pointer arm.
-func ampKinds(p *core.Program, f *core.Func, ptr *ast.CaseClause, amp *ast.CallExpr, all []string) ([]string, string) {
+func ampKinds(p *core.Program, f *core.Func, ptr *ast.CaseClause, amp ast.Expr, all []string) ([]string, string) {
 	info := f.Info()
 	// (a) nested in a case clause of a switch over <elem>.Kind()
 	path := core.PathTo(ptr, amp)
@@ -550,4 +563,40 @@ func c14R3forFunc(p *core.Program, r *core.Report, f *core.Func) {
 			}
 		}
 	}
+}
+
+// stringBuild decomposes a string-building expression into its constant text
+// (operands marked by \x00) and operands: fmt.Sprintf(const, ops...) or a
+// concatenation of constants and operands.
+func stringBuild(info *types.Info, e ast.Expr) (string, []ast.Expr, bool) {
+	e = ast.Unparen(e)
+	if c := core.AsCall(info, e, "fmt.Sprintf"); c != nil && len(c.Args) >= 1 {
+		if s, ok := core.ConstString(info, c.Args[0]); ok {
+			return s, c.Args[1:], true
+		}
+		return "", nil, false
+	}
+	if s, ok := core.ConstString(info, e); ok {
+		return s, nil, true
+	}
+	if b, ok := e.(*ast.BinaryExpr); ok && b.Op == token.ADD {
+		lt, lo, lok := stringBuild(info, b.X)
+		rt, ro, rok := stringBuild(info, b.Y)
+		if !lok {
+			lt, lo = "\x00", []ast.Expr{b.X}
+		}
+		if !rok {
+			rt, ro = "\x00", []ast.Expr{b.Y}
+		}
+		if !lok && !rok {
+			// no constant part at all: not a template
+			if _, isBin := ast.Unparen(b.X).(*ast.BinaryExpr); !isBin {
+				if _, isBin2 := ast.Unparen(b.Y).(*ast.BinaryExpr); !isBin2 {
+					return "", nil, false
+				}
+			}
+		}
+		return lt + rt, append(lo, ro...), true
+	}
+	return "", nil, false
 }
